@@ -1,6 +1,7 @@
 import TaurexModel.Proto
 import TaurexModel.Transmission
 import TaurexModel.Geometry
+import TaurexModel.AbsorptionGrid
 
 namespace Taurex.Ops.C01
 open Taurex.Proto Taurex.Transmission
@@ -85,6 +86,24 @@ def spectrumOp (args : List String) : Option String :=
     pure (fList (fList fF) tc ++ " " ++ fList (fList fF) tf ++ " " ++ fList fF dc ++ " " ++ fList fF df
           ++ " " ++ fF bare ++ " " ++ fF opq)) args
 
-def ops : List Op := [("c01.paths", pathsOp), ("c01.paths3d", paths3dOp), ("c01.spectrum", spectrumOp)]
+def gasP : P (Taurex.AbsorptionGrid.Gas Float) := do
+  let wn ← listOf flt
+  let vals ← listOf (listOf flt)
+  let mix ← listOf flt
+  let a := vals.toArray
+  pure { wn := wn, vals := fun l => a.getD l [], mix := fn1 mix }
+
+/-- `c01.abssigma nlayers req gases` (gas = its native wavenumbers, per layer its values on them, per layer its mixing
+    ratio) → sigma_xsec[nlayers][req.length] of `AbsorptionContribution` on the grid `req` (`AbsorptionGrid.absSigma`) -/
+def absSigmaOp (args : List String) : Option String :=
+  run (do
+    let n ← nat
+    let req ← listOf flt
+    let gs ← listOf gasP
+    if req.isEmpty then failure
+    pure (fList (fList fF) (tab2 n req.length (Taurex.AbsorptionGrid.absSigma gs req)))) args
+
+def ops : List Op := [("c01.paths", pathsOp), ("c01.paths3d", paths3dOp), ("c01.spectrum", spectrumOp),
+  ("c01.abssigma", absSigmaOp)]
 
 end Taurex.Ops.C01
